@@ -238,7 +238,11 @@ inline Rational ratFromString(const char* desc)
          else
             res = Rational(s);
 
-         res *= pow(10, mult);
+         // scale by the power of ten exactly (a double power is inexact for negative and large exponents)
+         if(mult >= 0)
+            res *= Rational(pow(Integer(10), (unsigned) mult));
+         else
+            res /= Rational(pow(Integer(10), (unsigned)(-mult)));
       }
    }
 
